@@ -19,6 +19,18 @@ def check(rep):
     mols = 0
     skipped = 0
     distinct = set()
+    # objects with transition lists cannot be judged from the molecule alone (a growth step may attach an end group); for them the stop point
+    # is read from the model run on the implementation's own picks: by C07_stop_rule the model stops at the first step whose accumulated
+    # mass exceeds the target, so an implementation that goes on taking random decisions after that point has grown past it
+    for c in cases:
+        mo = getattr(c, "mo", None)
+        if not isinstance(mo, dict) or getattr(c, "near", False) or mo.get("r") != "done" or c.run.gen is None:
+            continue
+        if mo.get("picks_left", 0) > 0 and not mo.get("targets_left", 0):
+            infos = mo.get("infos", [])
+            rep.fail("oracle", f"growth went on after the stop point: with the same picks the stop rule ends every object at targets / accumulated masses "
+                     f"{[(i.get('T'), i.get('units')) for i in infos][:3]}, the implementation took {mo['picks_left']} more random decisions", c.ident(),
+                     expected="stop at the first unit whose added mass exceeds the target", observed=f"{mo['picks_left']} further decisions")
     for c in cases:
         if c.run.gen is None:
             continue
